@@ -628,7 +628,7 @@ fn per_kind_menus() -> Vec<(&'static str, Vec<usize>)> {
 
 fn run_c08_c09(ctx: &mut Ctx, id: &'static str, which: Which) {
     let full = parse_menu(MENU_DEFS);
-    let d_full = ctx.tier.pick(3, 4);
+    let d_full = ctx.tier.pick(4, 5);
     let thorough = ctx.tier == Tier::Thorough;
     run_model(ctx, id, which, "all-kinds", full.clone(), concat_progs(), vec![Act::ConcatSelf], d_full, thorough);
     let d_kind = ctx.tier.pick(5, 7);
@@ -698,7 +698,7 @@ pub static C08: PropDef = PropDef {
     id: "C08",
     level: "model_checking",
     engine: "hist",
-    rule: "transition system over real Programs: add_instruction over a 28-instruction menu with two keys and a redefinition for each of the 8 definition kinds (declarations, frames, waveforms, calibrations, measure calibrations, gates, circuits, extern pragmas) plus body instructions, + with 3 fixed programs and with itself; depth <= 3 (thorough 4) over the full menu and depth <= 5 (7) over each per-kind menu; stateright DFS with state matching. Oracle in every state: per-kind listing order = first insertion, value = last; same history rebuilt serializes byte-identically; sampled states serialized in two separate processes. non-trivial = state at depth >= 2",
+    rule: "transition system over real Programs: add_instruction over a 28-instruction menu with two keys and a redefinition for each of the 8 definition kinds (declarations, frames, waveforms, calibrations, measure calibrations, gates, circuits, extern pragmas) plus body instructions, + with 3 fixed programs and with itself; depth <= 4 (thorough 5) over the full menu and depth <= 5 (7) over each per-kind menu; stateright DFS with state matching. Oracle in every state: per-kind listing order = first insertion, value = last; same history rebuilt serializes byte-identically; sampled states serialized in two separate processes. non-trivial = state at depth >= 2",
     assumptions: ASSUME,
     run: |ctx| {
         run_c08_c09(ctx, "C08", Which::C08);
